@@ -115,10 +115,21 @@ thread_local! { static LAST_PANIC: RefCell<Option<(String, String)>> = RefCell::
 pub fn install_panic_hook() {
     std::panic::set_hook(Box::new(|info| {
         let loc = info.location().map(|l| format!("{}:{}", crate_relative(l.file()), l.line())).unwrap_or_else(|| "?".into());
+        let site = info.location().map(|l| site_key(l.file(), l.line())).unwrap_or_else(|| "?".into());
         let msg = info.payload().downcast_ref::<String>().cloned().or_else(|| info.payload().downcast_ref::<&str>().map(|s| s.to_string())).unwrap_or_default();
+        // keep the first line only (anyhow errors print a backtrace after it when RUST_BACKTRACE is set)
+        let msg: String = msg.lines().next().unwrap_or("").chars().take(240).collect();
+        let loc = format!("{loc}\u{1}{site}");
         if IN_CATCH.with(|c| c.get()) == 0 { eprintln!("MACHINERY: harness panic outside a guarded call at {loc}: {msg}"); }
         LAST_PANIC.with(|p| *p.borrow_mut() = Some((loc, msg)));
     }));
+}
+/// a panic site key that survives unrelated edits: crate-relative file + the text of the panicking source line (not its number)
+fn site_key(file: &str, line: u32) -> String {
+    let rel = crate_relative(file);
+    let text = std::fs::read_to_string(file).ok().and_then(|s| s.lines().nth(line.saturating_sub(1) as usize).map(|l| l.trim().to_string())).unwrap_or_else(|| format!("line {line}"));
+    let text: String = text.chars().filter(|c| !c.is_whitespace()).take(70).collect();
+    format!("{rel}#{text}")
 }
 fn crate_relative(f: &str) -> String {
     // /repo/src/x.rs -> src/x.rs ; ~/.cargo/registry/src/<idx>/<crate>-<ver>/src/x.rs -> <crate>/src/x.rs (version dropped)
@@ -138,14 +149,15 @@ fn crate_relative(f: &str) -> String {
     f.to_string()
 }
 #[derive(Debug, Clone)]
-pub struct Panic { pub loc: String, pub msg: String }
-impl Panic { pub fn class(&self) -> &'static str { let m = &self.msg; if m.contains("`Result::unwrap()` on an `Err`") || m.contains("`Result::expect") { "unwrap-on-Err" } else if m.contains("`Option::unwrap()` on a `None`") || m.contains("`Option::expect") { "unwrap-on-None" } else if m.contains("assertion") { "assertion" } else if m.contains("explicit panic") { "explicit-panic" } else if m.contains("overflow") { "arithmetic-overflow" } else if m.contains("index out of bounds") || m.contains("out of range") { "out-of-bounds" } else { "other" } } }
+pub struct Panic { pub loc: String, pub site: String, pub msg: String }
+impl Panic { pub fn detail(&self) -> String { let m = self.msg.split("value: ").nth(1).unwrap_or(""); m.chars().filter(|c| !c.is_ascii_digit()).take(40).collect::<String>().trim().replace(' ', "-") }
+    pub fn class(&self) -> &'static str { let m = &self.msg; if m.contains("`Result::unwrap()` on an `Err`") || m.contains("`Result::expect") { "unwrap-on-Err" } else if m.contains("`Option::unwrap()` on a `None`") || m.contains("`Option::expect") { "unwrap-on-None" } else if m.contains("assertion") { "assertion" } else if m.contains("explicit panic") { "explicit-panic" } else if m.contains("overflow") { "arithmetic-overflow" } else if m.contains("index out of bounds") || m.contains("out of range") { "out-of-bounds" } else { "other" } } }
 pub fn catch<T>(f: impl FnOnce() -> T) -> Result<T, Panic> {
     IN_CATCH.with(|c| c.set(c.get() + 1));
     let r = std::panic::catch_unwind(std::panic::AssertUnwindSafe(f));
     IN_CATCH.with(|c| c.set(c.get() - 1));
     match r {
         Ok(v) => Ok(v),
-        Err(_) => { let (loc, msg) = LAST_PANIC.with(|p| p.borrow_mut().take()).unwrap_or(("?".into(), "?".into())); Err(Panic { loc, msg }) }
+        Err(_) => { let (loc, msg) = LAST_PANIC.with(|p| p.borrow_mut().take()).unwrap_or(("?\u{1}?".into(), "?".into())); let (l, s) = loc.split_once('\u{1}').map(|(a, b)| (a.to_string(), b.to_string())).unwrap_or((loc.clone(), loc.clone())); Err(Panic { loc: l, site: s, msg }) }
     }
 }
